@@ -156,6 +156,8 @@ def build_dmig(spec):
         B = part()
         if spec.get("imag_holes"):
             B[rng.random((nr, nc)) < 0.4] = 0.0
+        if spec.get("real_holes"):
+            A[rng.random((nr, nc)) < 0.4] = 0.0            # purely imaginary entries (structural damping i*g*K)
         A = A + 1j * B
     if kind == "sym":
         A = np.tril(A) + np.tril(A, -1).T
@@ -824,6 +826,7 @@ def dmig_spec(draw, name):
         spec["vals"] = draw(st.sampled_from(["unit", "int", "wide", "exp3", "nines", "mixed"]))
     if dtype.startswith("c"):
         spec["imag_holes"] = draw(st.booleans())
+        spec["real_holes"] = draw(st.booleans())
     if kind == "sqdiff":
         cols = draw(label_sets(exclude=tuple(r[0] for r in rows)))
         # same number of columns as rows: trim, or pad with scalar points 5000, 5001, ...
